@@ -1,5 +1,5 @@
 #!/bin/bash
-# Runs every seeded change against the checks of the properties named in tools/seed_matrix.txt
+# Runs every seeded change against the checks of the properties named in ${1:-tools/seed_matrix.txt}
 # (one line per seed: <seed dir name> <property ids...>) and prints a table.
 cd /verif
 while read -r seed props; do
@@ -7,4 +7,4 @@ while read -r seed props; do
   case "$seed" in \#*) continue;; esac
   echo "### $seed"
   tools/run_seed.sh seeded/$seed $props 2>&1 | cut -c1-260
-done < tools/seed_matrix.txt
+done < ${1:-tools/seed_matrix.txt}
